@@ -2,7 +2,7 @@
 from hypothesis import strategies as st
 
 from ECAgent.Core import Agent, Environment, Model
-from ECAgent.Environments import GridWorld
+from ECAgent.Environments import GridWorld, PositionComponent
 from vf.engine import Violation, InvalidCase
 from vf.fixtures import CompA, CompB, CompC, CompD, CompF, check, sized_lists, wone_of
 
@@ -36,14 +36,16 @@ def run_case(case):
     if grid:
         model.set_environment(GridWorld(model, 4, 3))
     env = model.environment
+    CAP = max(1, min(int(case.get("cap", 8)), 200))            # population limit (large cases cross size thresholds)
     pop = []          # (agent, mask, tag)
+    unregistered, stale = {}, {}      # id(agent) -> components attached / detached WITHOUT the explicit scheduler call
     n_created = 0
     nontrivial = False
     labels = set()
     for k, op in enumerate(case["ops"]):
         where = f"after op {k} {op}"
         if op["op"] == "add":
-            if len(pop) >= 8:
+            if len(pop) >= CAP:
                 continue
             mask, tag = int(op["mask"]) % 8, op.get("tag")
             akind = op.get("akind", "agent")
@@ -70,6 +72,11 @@ def run_case(case):
             if not pop:
                 continue
             a, _, _ = pop.pop(int(op["k"]) % len(pop))
+            for c in unregistered.pop(id(a), []):           # make the scheduler's view consistent again before the agent leaves
+                if a[type(c)] is c:
+                    model.systems.register_component(c)
+            for c in stale.pop(id(a), []):
+                model.systems.deregister_component(c)
             env.remove_agent(a.id)
         elif op["op"] == "retag":                     # documented: "you can assign it post-initialization: p1.tag = Tags.PREY"
             if not pop:
@@ -85,22 +92,33 @@ def run_case(case):
             i = int(op["k"]) % len(pop)
             a, mask, tg = pop[i]
             ti = int(op["t"]) % 3
+            paired = bool(op.get("paired", True))
             if mask >> ti & 1:
-                model.systems.deregister_component(a[TYPES[ti]])
+                c = a[TYPES[ti]]
+                if any(c is u for u in unregistered.get(id(a), [])):
+                    unregistered[id(a)] = [u for u in unregistered[id(a)] if u is not c]
+                elif paired:
+                    model.systems.deregister_component(c)
+                else:
+                    stale.setdefault(id(a), []).append(c)
                 a.remove_component(TYPES[ti])
             else:
                 c = TYPES[ti](a, model)
                 a.add_component(c)
-                model.systems.register_component(c)
+                if paired:
+                    model.systems.register_component(c)
+                else:                          # the agent simply gains a component: queries go by what agents carry
+                    unregistered.setdefault(id(a), []).append(c)
+                    labels.add("component-attached-without-scheduler-call")
             pop[i] = (a, mask ^ (1 << ti), tg)
             labels.add("component-toggled")
         elif op["op"] == "query":
-            tmpl_idx = [int(t) % 4 for t in op.get("tmpl", [])][:3]
-            tmpl = [TYPES[i] for i in tmpl_idx]
+            tmpl_idx = [int(t) % 5 for t in op.get("tmpl", [])][:3]
+            tmpl = [TYPES[i] if i < 4 else PositionComponent for i in tmpl_idx]
             tag = op.get("tag")
             kw = {} if (tag is None and op.get("omit_tag", True)) else {"tag": tag}
             want = [a for a, mask, t in pop
-                    if all(i < 3 and (mask >> i & 1) for i in tmpl_idx) and (tag is None or t == tag)]
+                    if all((i < 3 and (mask >> i & 1)) or (i == 4 and grid) for i in tmpl_idx) and (tag is None or t == tag)]
             order = [a.id for a, _, _ in pop]
 
             def env_intact(what):
@@ -135,7 +153,8 @@ def run_case(case):
                     raise Violation("pick-outside-filter", f"{where}: no candidate for {desc} but get_random_agent returned {getattr(r, 'id', r)}")
             else:
                 seen = set()
-                for _ in range(60 * len(cand)):
+                draws = 60 * len(cand) if len(cand) <= 16 else 25 * len(cand)      # miss probability < 1e-8 either way
+                for _ in range(draws):
                     r = env.get_random_agent(*tmpl, **kw)
                     if r is None or id(r) not in cand:
                         raise Violation("pick-outside-filter", f"{where}: {desc}: get_random_agent returned {getattr(r, 'id', r)!r}, "
@@ -143,7 +162,7 @@ def run_case(case):
                     seen.add(id(r))
                 if len(seen) != len(cand):
                     miss = [cand[i].id for i in cand if i not in seen]
-                    raise Violation("pick-unreachable", f"{where}: {desc}: {miss} never returned in {60 * len(cand)} draws")
+                    raise Violation("pick-unreachable", f"{where}: {desc}: {miss} never returned in {draws} draws")
             env_intact("get_random_agent")
             sh = env.shuffle(*tmpl, **kw)
             if not isinstance(sh, list) or sorted(id(x) for x in sh) != sorted(cand) or len(sh) != len(cand):
@@ -158,6 +177,8 @@ def run_case(case):
                 labels.add("no-candidate")
         else:
             raise InvalidCase(op)
+    if CAP > 64:
+        labels.add("population>64")
     return {"nontrivial": nontrivial, "labels": sorted(labels) + (["grid"] if grid else ["plain"])}
 
 
@@ -166,9 +187,20 @@ def strategy(tier):
                                  "akind": st.sampled_from(["agent", "agent", "agent", "agent", "nested-env", "crowd"])})
     rem = st.fixed_dictionaries({"op": st.just("remove"), "k": st.integers(0, 7)})
     retag = st.fixed_dictionaries({"op": st.just("retag"), "k": st.integers(0, 7), "tag": st.sampled_from([0, 1, 2, 7])})
-    toggle = st.fixed_dictionaries({"op": st.just("toggle"), "k": st.integers(0, 7), "t": st.integers(0, 2)})
-    q = st.fixed_dictionaries({"op": st.just("query"), "tmpl": st.lists(st.sampled_from([0, 0, 1, 1, 2, 3]), max_size=3),
+    toggle = st.fixed_dictionaries({"op": st.just("toggle"), "k": st.integers(0, 140), "t": st.integers(0, 2), "paired": st.booleans()})
+    q = st.fixed_dictionaries({"op": st.just("query"), "tmpl": st.lists(st.sampled_from([0, 0, 1, 1, 2, 3, 4]), max_size=3),
                                "tag": st.sampled_from([None, None, 0, 0, 1, 2, 7, 9]), "omit_tag": st.booleans()})
+    from vf.fixtures import near_pow2
+    crowd = near_pow2(33, 130).flatmap(lambda n: st.fixed_dictionaries({
+        "seed": st.integers(0, 50), "grid": st.sampled_from([False, False, True]), "cap": st.just(n + 5),
+        "ops": st.builds(lambda first, rest: first + rest, st.lists(add, min_size=n, max_size=n),
+                         sized_lists(wone_of(toggle, toggle, retag, rem, q, q), 3, 8))}))
+    small = _small(add, rem, retag, toggle, q)
+    return wone_of(*([small] * 14 + [crowd]))
+
+
+def _small(add, rem, retag, toggle, q):
+    from hypothesis import strategies as st
     return st.fixed_dictionaries({"seed": wone_of(st.integers(0, 50), st.integers(-2 ** 70, 2 ** 70)),
                                   "grid": st.sampled_from([False, False, False, True]),
                                   "ops": st.builds(lambda first, rest: first + rest, sized_lists(add, 0, 6),
